@@ -118,7 +118,7 @@ ensures''' + NEWB_POST,
 }''')])),
         # flat_map / filter closures with a side effect (`new_binding` in the filter): not verified; what the include needs of it
         ('standard_library_gates', dict(ret='r', props=['C07', 'C09', 'C13'], trusted=True, hash_strip=[re.compile(r'\(\s*vec!\[[^\]]*\]\s*,\s*\[\s*\d+\s*,\s*\d+\s*\]\s*,?\s*\)'), re.compile(r'\bg\d+q\d+p\b')],      # (rows, and the row variables named after their arity)
-             note='flat_map / filter closures capturing &mut self (the frame is pinned; the rows of the gate table are checked one by one: std_gate_table_rows)',
+             note='flat_map / filter closures capturing &mut self (the frame is pinned; the rows of the gate table are checked one by one: c09_c13_std_gate_table_rows)',
                                         spec='''requires old(self).wf(),
 ensures final(self).wf(), final(self).depth() == old(self).depth(),
     // every gate of the library is bound afterwards (by this call, or it was bound before: then its name is returned)
